@@ -2060,6 +2060,22 @@ func runC12() {
 			}
 		}
 	}
+	// sequences: what one parse leaves behind must not reach the next (idl.Parse is called many times
+	// in one process). Each first text ends its parse in a particular lexer state (after a CR, after
+	// CR LF, inside a comment, at an error, at EOF inside a token), each second text starts with the
+	// character that state is sensitive to and holds an error further down; positions are checked
+	// by the independent line count and against the model, as for every case.
+	firsts := []string{"package a\r\nstruct A {\r", "package a\r", "package a\r\n", "\r", "package a // c\r", "package a\rstruct A { F }\r",
+		"package a\nstruct A root {\n  F int64\n}\r", "package a /", "package a\n// comment", "package a struct A { F [", "package 1\r"}
+	seconds := []string{"\npackage a\n\nstruct A {\n  F\n}\n", "\n\nstruct", "\n\r\npackage a\nenum E {\n  A = x\n}", "\npackage a\n\nstruct A root {\n  F int64\n  F int64\n}\n",
+		"\n// c\npackage a\nstruct A { F unknown }\n", "\r\npackage a\noneof O {\n 7 }", "\n\n\n!"}
+	for i, f := range firsts {
+		for j, sec := range seconds {
+			parseCase(fmt.Sprintf("seq-%d-%d-first", i, j), f)
+			parseCase(fmt.Sprintf("seq-%d-%d-second", i, j), sec)
+			stats["parse-sequences"]++
+		}
+	}
 	n = 1500
 	if thorough {
 		n = 40000
